@@ -3,7 +3,7 @@
     [run e a m] is accessor [a] (38 of them: Error, the To* / As* scalar family, DecodeJSON, the slice and
     map accessors, the stream / sorted-set / scan / pop / FT.SEARCH / FT.AGGREGATE / GEOSEARCH helpers, ToMap,
     ToAny, DecodeSliceOfJSON) applied to the reply tree [m], for ANY behaviour [e] of strconv.ParseFloat,
-    float64(int64), strconv.ParseInt(s, 0, 64) and json.Unmarshal.  [run_result] is the same through a
+    float64(int64) and json.Unmarshal.  [run_result] is the same through a
     RedisResult.  [classify k text] are the RedisError classifiers on an error text.
 
     Quantifier: every reply tree — the theorems of the first group hold for ALL trees of the model's type,
@@ -111,7 +111,7 @@ Print Assumptions C15_to_map_before_fix_refuted.
 
 (** non-vacuity: the inputs that used to panic now give errors / ok=false; an odd streamed map inside a
     well-formed reply; a deep tree through ToAny *)
-Definition ex_env : env := mkEnv (fun _ => (0, false)) (fun _ => 0) (fun _ => None) (fun _ => false).
+Definition ex_env : env := mkEnv (fun _ => (0, false)) (fun _ => 0) (fun _ => false).
 
 Example C15_nonvacuous_classifiers :
   classify KMoved (b "MOVED 1") = ROk (VTup [VStr []; VBool false]) /\
